@@ -1,3 +1,569 @@
 import LocustModel.Proto
-/- Driver stub for C02 (replaced when the property's model is built). -/
-def main : IO Unit := LM.Proto.runDriver fun _ => "?\t?"
+import LocustModel.Query.SqlProto
+import LocustModel.Query.Layout
+/-
+  Driver for C02.  Input line (one case = logical table + query + all realisations):
+
+    lay <kind> <items> <where|-> <order|-> <limit|-> <offset> <ncols> <col0 cells> … <k> (<split> <batch_size> <obs> <out>)×k
+
+    kind   sel | ord | grp | agg
+    items  sel/ord: `;`-separated RPN expressions (ord: the first is the `id` column)
+           grp/agg: `;`-separated `k<col>` (group key) | `a<fn>:<col>` fn ∈ count1 count sum min max
+    order  `;`-separated `<col>:a|d`
+    split  actual partition lengths in row-range order;  obs: compaction inputs observed (`-` none), format of
+           `LM.classifyObs`;  out: `rows:<rows>` | `err:<kind>` | `panic` | `hang` | `build-…`
+
+  Output:  <model> TAB <spec> [TAB <finding id>]
+    model  the outputs predicted by `evalPhys` on the actual split of every realisation (space separated, same
+           text as the implementation column), `?` where the model does not predict (unstable top-n ties,
+           realisations covered by an open finding, queries outside the fragment)
+    spec   OK when every realisation's output satisfies `evalLogical` on the logical table (exact rows for
+           sel, the ORDER BY relation for ord, the multiset of groups for grp/agg) — hence all agree;
+           BAD R<i> <why> otherwise; SKIP outside the fragment
+-/
+namespace LM.DrvC02
+open LM LM.Proto LM.Sql LM.SqlProto LM.Combine LM.Layout LM.OrderSpec LM.GroupSpec
+
+inductive Kind where | sel | ord | grp | agg
+  deriving DecidableEq, Repr
+
+structure Real where
+  split : List Nat
+  batchSize : Nat
+  obs : String
+  out : String
+
+structure Case where
+  kind : Kind
+  exprs : List Expr
+  sel : List SelItem
+  pred : Option Expr
+  order : List (Nat × Bool)
+  limit : Option Nat
+  offset : Nat
+  rows : List Row
+  reals : List Real
+
+def parseFn (s : String) : Option AggFn :=
+  if s = "count1" then some .count1 else if s = "count" then some .count else if s = "sum" then some .sum
+  else if s = "min" then some .min else if s = "max" then some .max else none
+
+def parseItem (s : String) : Option SelItem :=
+  match s.toList with
+  | 'k' :: rest => (String.ofList rest).toNat?.map SelItem.key
+  | 'a' :: rest =>
+      match (String.ofList rest).splitOn ":" with
+      | [f, c] => do pure (.agg ⟨← parseFn f, ← c.toNat?⟩)
+      | _ => none
+  | _ => none
+
+def parseOrder (s : String) : Option (List (Nat × Bool)) :=
+  if s = "-" then some [] else
+  (s.splitOn ";").mapM fun t => match t.splitOn ":" with
+    | [c, d] => do pure ((← c.toNat?), d = "d")
+    | _ => none
+
+def takeReals : Nat → List String → Option (List Real)
+  | 0, [] => some []
+  | 0, _ => none
+  | n + 1, sp :: bs :: obs :: out :: rest => do
+      let s ← parseList parseNat? sp
+      let b ← bs.toNat?
+      let t ← takeReals n rest
+      pure (⟨s, b, obs, out⟩ :: t)
+  | _, _ => none
+
+def parseCase (toks : List String) : Option Case :=
+  match toks with
+  | "lay" :: kind :: items :: wh :: ord :: lim :: off :: ncols :: rest => do
+      let k ← (if kind = "sel" then some Kind.sel else if kind = "ord" then some .ord
+               else if kind = "grp" then some .grp else if kind = "agg" then some .agg else none)
+      let nc ← ncols.toNat?
+      let cols ← (rest.take nc).mapM parseCells
+      let n := (cols.head?.map List.length).getD 0
+      let rows := transpose cols n
+      let pred ← parseOptExpr wh
+      let order ← parseOrder ord
+      let limit ← (if lim = "-" then some none else lim.toNat?.map some)
+      let offset ← off.toNat?
+      let (exprs, sel) ← (match k with
+        | .sel | .ord => do pure ((← (items.splitOn ";").mapM parseExpr), [])
+        | .grp | .agg => do pure ([], (← (items.splitOn ";").mapM parseItem)))
+      match rest.drop nc with
+      | kk :: triples => do
+          let reals ← takeReals (← kk.toNat?) triples
+          pure ⟨k, exprs, sel, pred, order, limit, offset, rows, reals⟩
+      | [] => none
+  | _ => none
+
+/-! C07's five compaction findings were repaired in /repo (9061c98, 517cc41, 502d6c5, ac95cd6, 5d2aab4); their classifier on
+    the observed compaction inputs (`obs`) has been removed — a compacted layout that answers differently is a violation. -/
+
+def classifyObs (_obs : String) : String := ""
+
+/-! ### canonical text -/
+
+/-- -0.0 is shown as 0.0 in aggregate results (equal under OrderedFloat; which pattern MIN/MAX returns is not specified). -/
+def normCell : Val → Val
+  | .float b => if b = 9223372036854775808 then .float 0 else .float b
+  | v => v
+
+def showOut (rs : List Row) : String := "rows:" ++ showRows rs
+
+def parseOut (s : String) : Option (List Row) :=
+  match s.toList with
+  | 'r' :: 'o' :: 'w' :: 's' :: ':' :: rest => parseRows (String.ofList rest)
+  | _ => none
+
+/-- The harness prints grouped results sorted by Rust's derived order on its `Cell` (Null < Int < Float(bits) < Str(bytes)),
+    rows lexicographically; the model prints in the same order. -/
+def cellRank : Val → Nat
+  | .null => 0 | .int _ => 1 | .float _ => 2 | .str _ => 3
+
+def cellCmpLt (a b : Val) : Bool :=
+  match a, b with
+  | .int x, .int y => x < y
+  | .float x, .float y => x < y
+  | .str x, .str y => bytesLt x y
+  | x, y => cellRank x < cellRank y
+
+def rowLt : Row → Row → Bool
+  | [], [] => false
+  | [], _ :: _ => true
+  | _ :: _, [] => false
+  | a :: as, b :: bs => if cellCmpLt a b then true else if cellCmpLt b a then false else rowLt as bs
+
+def sortRows (rs : List Row) : List Row := isort (fun a b => !rowLt b a) rs
+
+def sameMultiset (a b : List Row) : Bool := (a.map (·.map normCell)).isPerm (b.map (·.map normCell))
+
+/-! ### the queries -/
+
+def selQ (c : Case) : SelQuery := ⟨c.exprs, c.pred, c.limit.getD (c.rows.length + c.offset + 1), c.offset⟩
+def ordQ (c : Case) : OrdQuery := ⟨c.exprs, c.pred, c.order, c.limit.getD (c.rows.length + c.offset + 1), c.offset⟩
+
+def foldTree {α : Type} : List α → Option (Tree α)
+  | [] => none
+  | a :: rest => some (rest.foldl (fun t x => .node t (.leaf x)) (.leaf a))
+
+/-- `Res.all` on the partitions, as text for the error cases. -/
+inductive Pred where
+  | rows (r : List Row)
+  | err (s : String)
+  | unknown
+
+def Pred.show : Pred → String
+  | .rows r => showOut r
+  | .err s => s
+  | .unknown => "?"
+
+def resToPred : Res (List Row) → Pred
+  | .ok r => .rows r
+  | .overflow => .err "err:overflow"
+  | .unsupported => .unknown
+
+/-! ### sel -/
+
+def physSel (c : Case) (split : List Nat) : Pred :=
+  let q := selQ c
+  let parts := (splitRows split c.rows).filter (fun p => !p.isEmpty)
+  match Res.all (parts.map (selectRows i2fNative q)) with
+  | .ok leaves =>
+      (match foldTree leaves with
+       | some t => .rows (evalPhysSel i2fNative q t)
+       | none => .rows [])
+  | .overflow => .err "err:overflow"
+  | .unsupported => .unknown
+
+/-! ### ord -/
+
+def hasTie (dirs : List Bool) : List Item → Bool
+  | [] => false
+  | x :: xs => xs.any (fun y => eqv (itemLe dirs) x y) || hasTie dirs xs
+
+/-- query.rs: `limit < partition_len / 2 && order_by.len() == 1 && !ranking.is_constant()` (an all-NULL key is constant). -/
+def usesTopN (c : Case) (part : List Row) : Bool :=
+  let lim := (c.limit.getD 18446744073709551615) + c.offset
+  match c.order with
+  | [(k, _)] => decide (lim < part.length / 2) && part.any (fun r => r.getD k .null != .null)
+  | _ => false
+
+def physOrd (c : Case) (split : List Nat) : Pred :=
+  let q := ordQ c
+  let dirs := keyDirs q.keys
+  let parts := (splitRows split c.rows).filter (fun p => !p.isEmpty)
+  let leaves := parts.map fun p => (p, orderItems i2fNative q p)
+  if leaves.any (fun l => match l.2 with | .overflow => true | _ => false) then .err "err:overflow"
+  else if leaves.any (fun l => match l.2 with | .unsupported => true | _ => false) then .unknown
+  else
+    let its : List (List Row × List Item) := leaves.map fun l => (l.1, match l.2 with | .ok i => i | _ => [])
+    -- the top-n path is not stable: with ties inside such a partition the engine may return any of them
+    if its.any (fun l => usesTopN c l.1 && hasTie dirs l.2) then .unknown
+    else
+      match foldTree (its.map fun l => partSorted q l.2) with
+      | some t => .rows ((evalPhysOrd q t).map (·.2))
+      | none => .rows []
+
+/-- The relation: look every returned row up by its `id` (first cell), check it shows what that row shows, judge. -/
+def judgeOrd (c : Case) (out : List Row) : String :=
+  let q := ordQ c
+  match orderItems i2fNative q c.rows with
+  | .ok items =>
+      let byId (r : Row) : Option Item := items.find? (fun it => it.2.head? == r.head? && it.2 == r)
+      (match out.mapM byId with
+       | none => "BAD not-a-row"
+       | some outItems => (judge (itemLe (keyDirs q.keys)) items outItems q.limit q.offset).toString)
+  | .overflow => "BAD expected-overflow"
+  | .unsupported => "SKIP"
+
+/-! ### grp / agg -/
+
+def specGrp (c : Case) : Res (List Row) := specGroupBy i2fNative c.sel c.pred c.rows
+
+def keyCols (c : Case) : List Nat := c.sel.filterMap SelItem.keyCol?
+
+def isIntCol (rows : List Row) (col : Nat) : Bool :=
+  rows.any (fun r => match r.getD col .null with | .int _ => true | _ => false)
+
+def keptRows (c : Case) : List Row :=
+  match filterRows i2fNative c.pred c.rows with | .ok k => k | _ => []
+
+/-! ### classifiers of the open findings (decidable predicates on the case) -/
+
+/-- `sum-sentinel` (C04/C06/C02): some SUM / MIN / MAX over an integer column has a partial result — over the rows of
+    one group in one partition of this realisation, or over the whole group — equal to i64::MAX. -/
+def sentinelPartial (c : Case) (split : List Nat) : Bool :=
+  let keys := keyCols c
+  let pieces := keptRows c :: (splitRows split c.rows).map (fun p => match filterRows i2fNative c.pred p with | .ok k => k | _ => [])
+  c.sel.any fun
+    | .agg a =>
+        (a.fn = .sum || a.fn = .min || a.fn = .max) &&
+        pieces.any (fun p => (groupRows keys p).any fun g =>
+          match ints? ((colCells a.col g.2).filter (· ≠ .null)) with
+          | some xs => !xs.isEmpty &&
+              (match a.fn with
+               | .sum => xs.foldl (· + ·) 0 == I64_MAX
+               | _ => xs.any (· == I64_MAX - 0) )
+          | none => false)
+    | .key _ => false
+
+/-- `groupby-absent-column` (C04/C02), value part: an integer SUM/MIN/MAX column whose input column is entirely NULL in some partition
+    of this realisation and not in another comes back as floats.  Returns the spec rows with those cells cast. -/
+def absentAggCols (c : Case) (split : List Nat) : List Nat :=
+  let parts := (splitRows split c.rows).filter (fun p => !p.isEmpty)
+  (List.range c.sel.length).filter fun i =>
+    match c.sel[i]? with
+    | some (.agg a) =>
+        (a.fn = .sum || a.fn = .min || a.fn = .max) && isIntCol c.rows a.col &&
+        parts.any (fun p => p.all (fun r => r.getD a.col .null == .null)) &&
+        parts.any (fun p => p.any (fun r => r.getD a.col .null != .null))
+    | _ => false
+
+/-- Some aggregate (other than COUNT(1)) reads a column that is entirely NULL (absent) in one of the partitions of
+    this realisation: that partition plans the aggregate on a `Null`-typed input. -/
+def absentAggInput (c : Case) (split : List Nat) : Bool :=
+  let parts := (splitRows split c.rows).filter (fun p => !p.isEmpty)
+  c.sel.any fun
+    | .agg a => a.fn ≠ .count1 && parts.any (fun p => p.all (fun r => r.getD a.col .null == .null))
+    | .key _ => false
+
+/-- `groupby-absent-column` (C04/C02): some column of the select list (grouping column or aggregate input) is entirely NULL
+    in one of the partitions of this realisation (absent, or stored with encoding type Null). -/
+def absentSelected (c : Case) (split : List Nat) : Bool :=
+  let parts := (splitRows split c.rows).filter (fun p => !p.isEmpty)
+  let cols := c.sel.filterMap fun | .key k => some k | .agg a => if a.fn = .count1 then none else some a.col
+  cols.any fun k => parts.any (fun p => p.all (fun r => r.getD k .null == .null))
+
+def floatify (cols : List Nat) (rs : List Row) : List Row :=
+  rs.map fun r => (List.range r.length).map fun i =>
+    match r.getD i .null with
+    | .int v => if cols.contains i then .float (i2fNative v) else .int v
+    | v => v
+
+/-- `count-null-group` (C04): COUNT(c) of a group without a non-NULL input is NULL instead of 0; a partition that
+    lacks `c` altogether drops its groups.  `nullCounts` shows the 0 cells of COUNT(c) columns as NULL. -/
+def countCols (c : Case) : List Nat :=
+  (List.range c.sel.length).filter fun i => match c.sel[i]? with | some (.agg a) => a.fn = .count | _ => false
+
+def nullCounts (cols : List Nat) (rs : List Row) : List Row :=
+  rs.map fun r => (List.range r.length).map fun i =>
+    match r.getD i .null with
+    | .int 0 => if cols.contains i then .null else .int 0
+    | v => v
+
+/-- Re-group result rows by their key cells, combining the aggregate cells (COUNT adds, SUM adds, MIN/MAX as
+    usual, NULL neutral): what the result would be had no group been emitted twice. -/
+def combineCell (fn : AggFn) (a b : Val) : Val :=
+  match a, b with
+  | .null, y => y
+  | x, .null => x
+  | .int x, .int y =>
+      (match fn with
+       | .min => .int (if x ≤ y then x else y)
+       | .max => .int (if x ≥ y then x else y)
+       | _ => .int (x + y))
+  | .float x, .float y =>
+      (match fn with
+       | .min => .float (if floatKey x ≤ floatKey y then x else y)
+       | .max => .float (if floatKey x ≥ floatKey y then x else y)
+       | _ => .float x)
+  | x, _ => x
+
+def regroup (sel : List SelItem) (rs : List Row) : List Row :=
+  let keyIdx := (List.range sel.length).filter fun i => match sel[i]? with | some (SelItem.key _) => true | _ => false
+  let keyOf (r : Row) := keyIdx.map fun i => r.getD i .null
+  let merge (a b : Row) : Row := (List.range sel.length).map fun i =>
+    match sel[i]? with
+    | some (SelItem.agg ag) => combineCell ag.fn (a.getD i .null) (b.getD i .null)
+    | _ => a.getD i .null
+  rs.foldl (fun acc r =>
+    if acc.any (fun x => keyOf x == keyOf r) then acc.map (fun x => if keyOf x == keyOf r then merge x r else x)
+    else acc ++ [r]) []
+
+/-- some grouping column (integer, or dictionary-encoded string: both are grouped through `fuse_int_nulls`, NULL = smallest
+    raw key) has a NULL among the rows that pass the filter -/
+def nullIntKey (c : Case) : Bool :=
+  (keyCols c).any fun k => (keptRows c).any (fun r => r.getD k .null == .null)
+
+/-- Cell-by-cell comparison of a result row with the reference row of the same group, allowing exactly the
+    deviations of two open findings; returns the findings used, `none` if some other cell differs.
+    * `count-null-group`: a COUNT(c) cell whose reference value is 0 shows NULL or 1;
+    * `groupby-absent-column`: an integer SUM/MIN/MAX cell of a column in `ac` shows the value cast to f64. -/
+def cellsExplained (cc ac : List Nat) : Nat → List Val → List Val → Option (List String)
+  | _, [], [] => some []
+  | i, s :: ss, o :: os =>
+      let rest := cellsExplained cc ac (i + 1) ss os
+      if normCell s == normCell o then rest
+      else if cc.contains i && s == .int 0 && (o == .null || o == .int 1) then rest.map ("count-null-group" :: ·)
+      else match s with
+        | .int v => if ac.contains i && o == .float (i2fNative v) then rest.map ("groupby-absent-column" :: ·) else none
+        | _ => none
+  | _, _, _ => none
+
+/-- Match every returned row with the reference row of the same key; reference rows that are not returned must be
+    groups whose COUNT(c) is 0 (dropped by a partition that lacks `c`).  `none`: not explained. -/
+def rowsExplained (c : Case) (cc ac : List Nat) (spec out : List Row) : Option (List String) :=
+  let keyIdx := (List.range c.sel.length).filter fun i => match c.sel[i]? with | some (SelItem.key _) => true | _ => false
+  let keyOf (r : Row) := keyIdx.map fun i => normCell (r.getD i .null)
+  let rec go : List Row → List Row → Option (List String)
+    | [], [] => some []
+    | [], _ :: _ => none
+    | s :: ss, outs =>
+        match outs.find? (fun o => keyOf o == keyOf s) with
+        | some o =>
+            (match cellsExplained cc ac 0 s o, go ss (outs.erase o) with
+             | some a, some b => some (a ++ b)
+             | _, _ => none)
+        | none =>
+            if cc.any (fun i => s.getD i .null == .int 0) then (go ss outs).map ("count-null-group" :: ·) else none
+  go spec out
+
+/-- `groupby-valrows-streamed` (C02): two or more grouping columns that cannot be bit-packed into one i64 key (a string
+    column among them, or integer ranges too wide) are grouped through `ValRows`; the executor then runs the non-streaming
+    `ValRowsPack` / the hash grouping on the output of a streaming stage without a block buffer in between, so a
+    partition longer than `batch_size` is grouped chunk by chunk with aggregates reading the wrong chunk. -/
+def bitsFor (n : Nat) : Nat := (List.range 65).find? (fun b => n < 2 ^ b) |>.getD 65
+
+/-- strings.rs: a string column of a partition is stored packed (not dictionary encoded, hence not bit-packable) when the
+    number of distinct strings (a NULL slot holds "") reaches `len / DICTIONARY_RATIO` (= len / 2, integer division, ≥ 1). -/
+def packedStringCol (part : List Row) (k : Nat) : Bool :=
+  let strs := part.map fun r => match r.getD k .null with | .str s => s | _ => []
+  let isStr := part.any fun r => match r.getD k .null with | .str _ => true | _ => false
+  isStr && part.length / 2 ≥ 1 && strs.eraseDups.length ≥ part.length / 2
+
+def wideIntKeys (part : List Row) (keys : List Nat) : Bool :=
+  (keys.map fun k =>
+      let vs := part.filterMap (fun r => match r.getD k .null with | .int v => some v | _ => none)
+      match vs with
+      | [] => 1
+      | v :: t => bitsFor ((t.foldl max v - t.foldl min v).toNat + 2)).sum > 63
+
+/-- Some partition at least as long as `batch_size` (the executor then streams it) groups through ValRows. -/
+def valRowsStreamed (c : Case) (r : Real) : Bool :=
+  let keys := keyCols c
+  keys.length ≥ 2 &&
+    ((splitRows r.split c.rows).any fun p =>
+      p.length ≥ r.batchSize && (keys.any (packedStringCol p) || wideIntKeys p keys))
+
+/-- `groupby-compressed-key-type` (C04/C02): with two or more bit-packed grouping columns the decoded key of a column whose
+    data section is pco/lz4-compressed is cast to the width of the COMPRESSED section (u8) instead of the decoded
+    width: the returned key differs from the true key by a multiple of 256, everything else is right.
+    Every reference row must be matched by a distinct returned row that agrees on all non-key cells and whose integer
+    key cells are equal or congruent modulo 256, and at least one key cell must differ. -/
+def keyCongruent (keyIdx : List Nat) (s o : Row) : Bool :=
+  s.length == o.length && (List.range s.length).all fun i =>
+    let a := normCell (s.getD i .null)
+    let b := normCell (o.getD i .null)
+    if keyIdx.contains i then
+      match a, b with
+      | .int x, .int y => (x - y) % 256 == 0
+      | x, y => x == y
+    else a == b
+
+def keysTruncated (c : Case) (spec out : List Row) : Bool :=
+  let keyIdx := (List.range c.sel.length).filter fun i => match c.sel[i]? with | some (SelItem.key _) => true | _ => false
+  let rec go : List Row → List Row → Bool
+    | [], rest => rest.isEmpty
+    | s :: ss, outs =>
+        match outs.find? (fun o => o == s) with
+        | some o => go ss (outs.erase o)
+        | none =>
+          match outs.find? (keyCongruent keyIdx s) with
+          | some o => go ss (outs.erase o)
+          | none => false
+  keyIdx.length ≥ 2 && !sameMultiset spec out && go spec out
+
+/-- The finding that explains why realisation `r` deviates from `spec`, or "". -/
+def classifyGrp (c : Case) (spec : Res (List Row)) (r : Real) : String :=
+  let c07 := classifyObs r.obs
+  if c07 ≠ "" then c07 else
+  if c.kind = .grp && valRowsStreamed c r then "groupby-valrows-streamed" else
+  let may := mayOverflow i2fNative c.sel c.pred c.rows
+  match spec, parseOut r.out with
+  | .ok s, some out =>
+      let cc := countCols c
+      let ac := absentAggCols c r.split
+      match rowsExplained c cc ac s out with
+      | some (f :: _) => f
+      | _ =>
+        if sentinelPartial c r.split then "sum-sentinel"
+        else if c.kind = .grp && nullIntKey c && r.split.length ≥ 2 &&
+            (match rowsExplained c cc ac s (regroup c.sel out) with | some _ => true | none => false) then "groupby-null-key-order"
+        else if c.kind = .grp && keysTruncated c s out then "groupby-compressed-key-type"
+        else ""
+  | .ok _, none =>
+      if may && r.out = "err:overflow" then "sum-overflow-order"
+      else if absentSelected c r.split then "groupby-absent-column"
+      else ""
+  | .overflow, some _ => if sentinelPartial c r.split then "sum-sentinel" else if may then "sum-overflow-order" else ""
+  | _, _ => ""
+
+/-! ### classifiers for sel / ord -/
+
+def exprCols : Expr → List Nat
+  | .col i => [i]
+  | .lit _ => []
+  | .cmp _ l r => exprCols l ++ exprCols r
+  | .and l r => exprCols l ++ exprCols r
+  | .or l r => exprCols l ++ exprCols r
+  | .not e => exprCols e
+  | .isNull e => exprCols e
+  | .isNotNull e => exprCols e
+  | .arith _ l r => exprCols l ++ exprCols r
+
+def referencedCols (c : Case) : List Nat :=
+  c.exprs.flatMap exprCols ++ (c.pred.map exprCols).getD [] ++ c.order.map (·.1)
+
+/-- `null-typed-partition` (C02): a column the query reads is entirely NULL in one partition of the realisation and
+    therefore typed `Null` there, while the realisation has at least two partitions.  Open manifestations: ORDER BY
+    with several keys does not tie the NULLs of such a partition (Val::Null) with the NULLs of typed partitions
+    (sentinel cast to Val::Integer), so later keys are ignored; a WHERE that is NULL for the whole partition plans
+    `Empty` for a Null-typed column (FatalError). -/
+def nullTypedPartition (c : Case) (r : Real) : Bool :=
+  let parts := (splitRows r.split c.rows).filter (fun p => !p.isEmpty)
+  parts.length ≥ 2 &&
+    (referencedCols c).any fun k =>
+      parts.any (fun p => p.all (fun row => row.getD k .null == .null)) &&
+      parts.any (fun p => p.any (fun row => row.getD k .null != .null))
+
+/-- `topn-nullable-fused` (C05/C02): single ORDER BY key with a NULL in a partition that takes the top-n path. -/
+def topNNullableKey (c : Case) (r : Real) : Bool :=
+  match c.order with
+  | [(k, _)] =>
+      (splitRows r.split c.rows).any fun p =>
+        usesTopN c p && p.any (fun row => row.getD k .null == .null)
+  | _ => false
+
+def classifyOrdSel (c : Case) (r : Real) (why : String) : String :=
+  let c07 := classifyObs r.obs
+  if c07 ≠ "" then c07
+  else if c.kind = .ord && topNNullableKey c r && (r.out = "err:canceled" || r.out = "panic") then "topn-nullable-fused"
+  else if nullTypedPartition c r &&
+      (r.out = "err:fatal" || (c.kind = .ord && c.order.length ≥ 2 && (why = "unsorted" || why = "wrong-cut"))) then "null-typed-partition"
+  else ""
+
+/-! ### one case -/
+
+def okOrBad (i : Nat) (why : String) : String := s!"BAD R{i} {why}"
+
+def firstBad (results : List (Nat × String)) : Option (Nat × String) := results.find? (fun p => p.2 ≠ "OK")
+
+/-- The query fails in EVERY layout (error value, panic or hang in each realisation, the reference layout included):
+    it is outside the fragment C02 speaks about — whether the failure itself is legitimate is the subject of
+    C03–C06 / C11 / C12.  `skip` marks realisations the harness did not run after the reference layout and a
+    second layout had both failed. -/
+def allFail (c : Case) : Bool :=
+  !c.reals.isEmpty && c.reals.all fun r => (parseOut r.out).isNone && r.out ≠ "err:overflow" && !r.out.startsWith "build-"
+
+def stepCase (c : Case) : String :=
+  if allFail c then "?\tSKIP all-layouts-fail" else
+  let idx := List.range c.reals.length
+  let reals := idx.zip c.reals
+  match c.kind with
+  | .sel =>
+      let spec := evalLogicalSel i2fNative (selQ c) c.rows
+      (match spec with
+       | .unsupported => "?\tSKIP"
+       | _ =>
+        let expected := (resToPred spec).show
+        let model := reals.map fun (_, r) => if classifyObs r.obs ≠ "" then Pred.unknown else physSel c r.split
+        let modelS := if model.any (fun p => match p with | .unknown => true | _ => false) then "?" else " ".intercalate (model.map Pred.show)
+        let verdicts := reals.map fun (i, r) => (i, if r.out = expected then "OK" else "differs-from-reference")
+        match firstBad verdicts with
+        | none => modelS ++ "\tOK"
+        | some (i, why) =>
+            let ids := (verdicts.filter (·.2 ≠ "OK")).map fun (j, w) => classifyOrdSel c (c.reals.getD j ⟨[], 0, "-", ""⟩) w
+            let fid := if ids.all (· ≠ "") then ids.headD "" else ""
+            modelS ++ "\t" ++ okOrBad i why ++ (if fid ≠ "" then "\t" ++ fid else ""))
+  | .ord =>
+      (match orderItems i2fNative (ordQ c) c.rows with
+       | .unsupported => "?\tSKIP"
+       | specItems =>
+        let model := reals.map fun (_, r) => if classifyObs r.obs ≠ "" then Pred.unknown else physOrd c r.split
+        let modelS := if model.any (fun p => match p with | .unknown => true | _ => false) then "?" else " ".intercalate (model.map Pred.show)
+        let verdicts := reals.map fun (i, r) =>
+          (i, match specItems, parseOut r.out with
+              | .overflow, _ => if r.out = "err:overflow" then "OK" else "expected-err:overflow"
+              | _, some out => (match judgeOrd c out with | "OK" => "OK" | s => s.drop 4 |>.toString)
+              | _, none => "not-rows:" ++ r.out)
+        match firstBad verdicts with
+        | none => modelS ++ "\tOK"
+        | some (i, why) =>
+            let ids := (verdicts.filter (·.2 ≠ "OK")).map fun (j, w) => classifyOrdSel c (c.reals.getD j ⟨[], 0, "-", ""⟩) w
+            let fid := if ids.all (· ≠ "") then ids.headD "" else ""
+            modelS ++ "\t" ++ okOrBad i why ++ (if fid ≠ "" then "\t" ++ fid else ""))
+  | .grp | .agg =>
+      let spec := specGrp c
+      (match spec with
+       | .unsupported => "?\tSKIP"
+       | _ =>
+        let may := mayOverflow i2fNative c.sel c.pred c.rows
+        let verdicts := reals.map fun (i, r) =>
+          (i, match spec, parseOut r.out with
+              | .ok s, some out => if sameMultiset s out then "OK" else "differs-from-reference"
+              | .ok _, none => "not-rows:" ++ r.out
+              | .overflow, _ => if r.out = "err:overflow" then "OK" else "expected-err:overflow"
+              | _, _ => "?")
+        let bad := verdicts.filter (·.2 ≠ "OK")
+        let ids := bad.map fun (j, _) => classifyGrp c spec (c.reals.getD j ⟨[], 0, "-", ""⟩)
+        -- the model (exact merge over the actual split = the specification, by C02_layout_group) predicts only
+        -- outside the regions of the open findings
+        let covered := !bad.isEmpty || may || c.reals.any (fun r => classifyObs r.obs ≠ "" || sentinelPartial c r.split)
+        let expected := match spec with
+          | .ok s => showOut (sortRows (s.map (·.map normCell)))
+          | _ => "err:overflow"
+        let modelS := if covered then "?" else " ".intercalate (c.reals.map fun _ => expected)
+        match firstBad verdicts with
+        | none => modelS ++ "\tOK"
+        | some (i, why) =>
+            let fid := if ids.all (· ≠ "") then ids.headD "" else ""
+            modelS ++ "\t" ++ okOrBad i why ++ (if fid ≠ "" then "\t" ++ fid else ""))
+
+def step (line : String) : String :=
+  match parseCase (splitTokens line) with
+  | some c => stepCase c
+  | none => "bad-op\tbad-op"
+
+end LM.DrvC02
+
+def main : IO Unit := LM.Proto.runDriver LM.DrvC02.step
